@@ -237,6 +237,37 @@ def bounded_counter_schema(term, rec, ctor):
     return just
 
 
+INT_TYS = {"i8", "i16", "i32", "i64", "i128", "isize", "u8", "u16", "u32", "u64", "u128", "usize"}
+
+
+def panic_sites(term):
+    """syntactic census of the potential panic sites of a term, by the MIR edge kind they give rise to"""
+    c = Counter()
+    for s in subterms(term):
+        if not isinstance(s, tuple) or not s:
+            continue
+        if s[0] == "call" and isinstance(s[1], str):
+            if s[1] == "Option::unwrap":
+                c[("call", "Option::unwrap")] += 1
+            elif s[1].endswith("ops::Index>::index"):
+                c[("call", "Index")] += 1
+        op = ty = None
+        if s[0] == "op" and len(s) == 5:
+            op, ty, rhs = s[1], s[2], s[4]
+        elif s[0] == "setop" and len(s) == 5:
+            op, ty, rhs = s[1], s[2], s[4]
+        if op and ty in INT_TYS:
+            if op in ("add", "sub", "mul"):
+                c[("assert", "Overflow(%s)" % op.capitalize())] += 1
+            elif op in ("div", "rem"):
+                nonzero_lit = isinstance(rhs, tuple) and rhs and rhs[0] == "lit" and str(rhs[1]).lstrip("-").isdigit() and int(rhs[1]) not in (0, -1)
+                if not nonzero_lit:
+                    c[("assert", "DivisionByZero" if op == "div" else "RemainderByZero")] += 1
+                    if ty.startswith("i"):
+                        c[("assert", "Overflow(%s)" % op.capitalize())] += 1
+    return c
+
+
 TOTAL_CMP_OK = ("f64::total_cmp", "f32::total_cmp")
 
 
@@ -320,11 +351,38 @@ def justifications(F, models):
         # eval arms
         ef = m.tb.eval_fn()
         if ef is not None:
+            sites = Counter()
+            arms_just = Counter()
+            residual_calls = set()
             for ctor, a in m.tb.eval_arms().items():
                 t = a["term"]
                 for fn_ in (lambda: med_schema(m, ctor, t, rec), lambda: seeded_schema(t, rec, ctor), lambda: factorial_bound_schema(t, rec, ctor),
                             lambda: guarded_div_schema(t, rec, ctor), lambda: bounded_counter_schema(t, rec, ctor)):
-                    J[ef.path].update(fn_())
+                    j_ = fn_()
+                    J[ef.path].update(j_)
+                    arms_just.update(j_)
+                sites.update(panic_sites(t))
+                for s in subterms(t):
+                    if isinstance(s, tuple) and len(s) >= 2 and s[0] == "call":
+                        hf = m.tb.resolve_local(s[1])
+                        if hf is not None:
+                            residual_calls.add(hf.path)
+            # helpers whose bodies live (only) inside the arm terms: an edge of kind K in such a helper is an instance of
+            # a K-site of the inlined arms; if every K-site of every arm is justified, so is every K-edge of the group
+            group = [F.by_path[p] for p in getattr(m.tb, "_inlined_paths", set()) if p in F.by_path and p not in residual_calls]
+            callers_ok = {}
+            edges_, _, _ = F.callgraph()
+            inl = set(getattr(m.tb, "_inlined_paths", set())) | set(m.tb._cache.get("walker_names", ()))
+            for g in group:
+                callers = [p for p, qs in edges_.items() if g.path in qs and p != g.path]
+                callers_ok[g.path] = all(p in inl or (F.by_path.get(p) is not None and F.by_path[p].kind == "Closure" and F.by_path[p].parent in inl) for p in callers)
+            for K, n in sites.items():
+                if n and arms_just.get(K, 0) >= n:
+                    for g in group:
+                        if callers_ok.get(g.path):
+                            J[g.path][K] += 10 ** 6
+                    if group:
+                        rec.append({"schema": "ALL-SITES", "ctor": "*", "kind": "%s %s" % K, "argument": "every one of the %d %s sites of the inlined arm terms is justified; helpers %s are reached only through the arms" % (n, K[1], sorted(g.short for g in group)[:6])})
         # closures: partial_cmp().unwrap() on Ord types
         for g in F.fns:
             if g.evaluator == ev and g.kind == "Closure" and g.thir:
